@@ -18,6 +18,15 @@ CLAIMS = {
  'C18': dict(text="KM laws (multi-put installs all pairs, last writer wins within a call, other keys untouched, get returns the latest put) + journal theorems (crash = prefix of transactions, flushed = durable). kvs.KVS is compared with the extracted KM on generated calls including both boundaries of the key range, and every key's block in every crash image must equal KM after a prefix of the calls containing all acknowledged ones.",
              design="4/C18", technique="Coq proofs on the store model and WAL model + differential execution + crash-image enumeration",
              note="Trusted: KM, WAL model, extraction. Concurrent callers not exercised."),
+ 'C04': dict(text="Theorems: disjoint in-disk regions for every accepted size (generated layout, shared with abs_disk/wf_disk); for index trees of any depth, allocation-on-demand and freeing from the top never give a block two owners, never lose one, keep free blocks zero and leave other mappings unchanged (TM, transliteration of indbmap/indshrink); every crash state is a transaction prefix (C01). Checked on every run: the extracted wf_disk is evaluated on the implementation's logical disk after every RPC of generated sequences (namespace-heavy, block-recycling, small disks) and on every crash image of C01's runs. Preservation of wf_disk by each whole Go transaction is sampled, not proved (partial).",
+             design="4/C04", technique="Coq proofs on layout and index-tree model + extracted invariant checker run on the real disk after every operation",
+             note="Trusted: wf_disk as the reading of 'well-formed' (Appendix C of DESIGN.md), TM as transliteration of the inode layer (not itself run against the code), extraction."),
+ 'C05': dict(text="TM theorems: owned blocks ++ free list is a permutation before/after allocation-on-demand and freeing (no leak, no double ownership), freeing to block 0 returns every block of the tree zeroed. Checked on every run: build-then-delete-everything histories (all size classes via boundary offsets, multi-transaction frees by the background shrinker, renames over targets, failed operations) with wf_disk (used = owned, no unreachable inode, free inode owns nothing at quiescence) and in-memory allocator counts = on-disk bitmap counts after every RPC and after restarts; crash images inside multi-transaction frees are judged in C01's runs.",
+             design="4/C05", technique="Coq proofs on index-tree model + extracted ownership/bitmap checker and allocator comparison on the real server",
+             note="Trusted: as C04; in-memory allocators are observed through NumFree (counts, not bit-by-bit)."),
+ 'C12': dict(text="TM theorems: free blocks are all-zero before and after allocation and freeing (freed blocks are zeroed in the same step), mappings of other offsets are unchanged. The reference AM defines READ over holes/re-exposed regions as zero. Checked on every run: block-recycling sequences (fill with recognisable non-zero patterns, delete or shrink to aligned and unaligned sizes, sparse and partial-block writes that reuse the blocks); READ data compared with AM, and wf_disk on the real disk after every RPC: every unowned data block zero, bytes of a last block beyond the size zero.",
+             design="4/C12", technique="Coq proofs on index-tree model + differential reads against the reference + zero-scan of the real disk",
+             note="Trusted: as C04; crash images are zero-scanned in C01's runs."),
  'C02': dict(text="Laws of the reference file system AM proved in Coq for all states, calls and hints (a failing call is the identity, read-only procedures are the identity, unsupported procedures and restarts have no effect) + the implementation is compared with the extracted AM reply by reply and with the extracted abstraction of its logical disk after every RPC of generated sequences (all 22 procedures, stale handles, names of every length class, offsets at indirection boundaries, restarts, unstable on/off). The refinement Go code -> AM is sampled, not proved (C02_partial).",
              design="4/C02", technique="Coq laws of the reference model + differential execution of extracted model against the real server",
              note="Trusted: AM as the statement of NFSv3 semantics (Appendix A of DESIGN.md), abs_disk, extraction, OCaml glue; refinement is sampled."),
